@@ -267,3 +267,23 @@ def init_edit_init(calc, shot, k, cd):
     shot.ammo.dm.drag_table[k].CD = cd
     calc._init_trajectory(shot)
     return calc
+
+
+# ---------------------------------------------------------------------------------------
+# C13 harnesses
+def hash_pair(q, r):
+    return (hash(q), hash(r))
+
+
+def hash_before_after_convert(q, u):
+    h0 = hash(q)
+    q << u
+    return (h0, hash(q))
+
+
+def read_convert_read(q, u, v):
+    """reading in unit u before and after the display unit is changed to v"""
+    a = q >> u
+    q << v
+    b = q >> u
+    return (a, b, q.unit_value)
